@@ -107,7 +107,7 @@ Proof. split; [exact boolab_guard_exact|exact boolability_repaired_classes]. Qed
 Print Assumptions C12_boolability_guard_exact_and_repairs.
 
 (* 6. the annotation visitor of the CURRENT annotations.py raises for no expression kind;
-      a raising generic_visit crashes on exactly the kinds without a method (Starred has none) *)
+      a raising generic_visit crashes on exactly the kinds without a method *)
 Theorem C12_annotation_visitor_total : forall k, In k expr_kinds -> annotation_crashes k = false.
 Proof. exact annotation_visitor_total. Qed.
 Print Assumptions C12_annotation_visitor_total.
